@@ -50,6 +50,7 @@ inductive Frame
   | popScopeK (vm : Nat)                                              -- the `finally` of make_scope
   | iterK (kind : IterKind) (f : Val) (src : IterSrc) (cur : Val) (acc : List Val)
   | tryK                                                              -- host try_apply
+  | astK (n : Name) (rest : List (Name × Op)) (main : Op) (vm : Nat)   -- `scoped_names[k] = v.eval(state)` of ast_names
   deriving Repr, Inhabited
 
 inductive Ctl
@@ -255,8 +256,19 @@ def callVal : Nat → Val → List Val → List Frame → World → Core
             | .opaque _ => mkRaise (.unmodelled "map-opaque") k w
             | _ => mkRaise (.parser "not a string, list or dict") k w)
          | _ => mkRaise .typeError k w)
+      else if (args.head?.map isTypeObject).getD false then mkRaise (.unmodelled "type-object-arg") k w
       else if name == "filter" then
         (match args with
+         | [c, .none] =>
+           -- `filter(None, xs)`: the truthy elements
+           (match c with
+            | .ref a => match h.get? a with
+              | some (.list xs) =>
+                let (h', a') := h.alloc (.list (xs.filter (truthy h)))
+                mkRet (.ref a') k { w with heap := h' }
+              | _ => mkRaise (.parser "not a list") k w
+            | .opaque _ => mkRaise (.unmodelled "filter-opaque") k w
+            | _ => mkRaise (.parser "not a list") k w)
          | [c, g] =>
            (match c with
             | .ref a => match h.get? a with
@@ -298,7 +310,7 @@ def callVal : Nat → Val → List Val → List Frame → World → Core
                   | _ => U "dangling"
                 | _ => U "dangling")
              else iterItems h c
-           (match itemsR, reverseFlag revV with
+           (match itemsR, reverseFlag h revV with
             | .error e, _ => mkRaise e k w
             | _, .error e => mkRaise e k w
             | .ok items, .ok rev =>
@@ -489,13 +501,23 @@ def resume (fr : Frame) (v : Val) (k : List Frame) (w : World) : Core :=
      | none => mkRaise (.unmodelled "vm") k w
      | some vm => mkRet v k (w.setVM vmi { vm with scopes := vm.scopes.tail }))
   | .iterK kind g src cur acc =>
-    let acc' := match kind with
+    let acc' : List Val := match kind with
       | .map => v :: acc
       | .filter => if truthy w.heap v then cur :: acc else acc
       | .reduce => [v]
       | .sortKeys _ _ _ => v :: acc
     iterNext callFuel kind g src acc' k w
   | .tryK => mkRet v k w
+  | .astK n rest main vmi =>
+    -- `scoped_names[k] = v.eval(state)`: bound in the top scope (the host's mapping), no copy
+    (match w.vm? vmi with
+     | none => mkRaise (.unmodelled "vm") k w
+     | some vm => match writeTop w.heap vm.scopes n v with
+       | none => mkRaise (.unmodelled "scope") k w
+       | some h' =>
+         match rest with
+         | [] => { ctl := .ev main vmi, k := k, w := { w with heap := h' } }
+         | (n', op') :: rest' => { ctl := .ev op' vmi, k := .astK n' rest' main vmi :: k, w := { w with heap := h' } })
 
 /-- an error passes frame `fr` -/
 def unwind (fr : Frame) (e : PyErr) (k : List Frame) (w : World) : Core :=
@@ -556,9 +578,11 @@ def runUntil : Nat → Cfg → Cfg
 /-- initial configuration of one `eval` call on world `w` with VM budgets `bs` so far
     (`bs.length = w.vms.length`):
     the names mapping lives at `namesAddr`; a fresh VM state carrying the caller's budget -/
-def initCfg (w : World) (bs : List Nat) (namesAddr : Nat) (budget : Nat) (ast : Op) : Cfg :=
+def initCfg (w : World) (bs : List Nat) (namesAddr : Nat) (budget : Nat) (ast : Op)
+    (astNames : List (Name × Op) := []) : Cfg :=
   let vmi := w.vms.length
-  { ctl := .ev ast vmi, k := [],
+  { ctl := (match astNames with | [] => .ev ast vmi | (_, op) :: _ => .ev op vmi),
+    k := (match astNames with | [] => [] | (n, _) :: rest => [.astK n rest ast vmi]),
     w := { w with vms := w.vms ++ [{ scopes := [namesAddr], ops := 0 }] },
     budgets := bs ++ [budget] }
 
